@@ -13,6 +13,8 @@ THEOREMS = ['C06_gpu_threads_cover', 'C06_lane_independent', 'C06_release_order_
             'C06_wave_strip_forks_irrelevant', 'C06_wave_strip_forks_polfree', 'C06_wave_strip_nonmonotone_refuted', 'C06_wavesim_options_irrelevant',
             'C06_dataset_selection', 'C06_dataset_selection_lanes',
             'C06_launcher_source_is_model', 'C06_launcher_source_nonvacuous']
+THEOREMS += ['C06_capture_cpu_source_is_model', 'C06_capture_gpu_source_is_model', 'C06_capture_cpu_gpu_same_source_model',
+             'C06_capture_source_example', 'C06_select_source_is_model']   # kernel bodies from the source text (Gen/WaveEvalSrc.v)
 COLS = [3, 4, 5, 6, 7, 10]
 
 
@@ -350,6 +352,7 @@ def wave_wide(rng, k=None):
 
 
 def run(ck):
+    wk.regen_kernel(ck)
     if THEOREMS:
         from vcheck import gen_all
         gen_all.generate(['LaunchSrc'])     # tie T for the launcher: regenerated before the build (obligation recorded by launch_corr.run)
